@@ -335,7 +335,7 @@ impl Prop for C12 {
             Leg {
                 name: "random",
                 kind: LegKind::Random {
-                    cases: tier.pick(700, 9000),
+                    cases: tier.pick(7000, 60000),
                 },
                 workers: 16,
                 build: Build::Normal,
